@@ -1892,7 +1892,7 @@ func (f *framer) readInetAdressOnly() net.IP {
 		panic(fmt.Errorf("invalid IP size: %d", size))
 	}
 
-	if len(f.buf) < 1 {
+	if len(f.buf) < int(size) {
 		panic(fmt.Errorf("not enough bytes in buffer to read inet require %d got: %d", size, len(f.buf)))
 	}
 
